@@ -140,48 +140,7 @@ func checkC09(c *Ctx, r *Report) {
 		}
 		r.add("C09.d", "tpl-types", en+":package+auth-import", en+": package clause and RequestAuth import come from the configuration", []string{eng.Routes.File}, []string{eng.Routes.File + ":1"}, viol)
 	}
-	ctxT := w.lookupType("generator/routes", "RoutesContext")
-	if fi := need(c, r, "C09.d", "generator/routes.GetTemplateContext"); fi != nil {
-		viol := ""
-		var sites []string
-		// whatever the shape (two assignments, or a default that is overridden): what can end up in
-		// PackageName is the configured name verbatim or a literal default that is an identifier
-		hasCfg, nDefault := false, 0
-		sinks := w.fieldSinks(fi, ctxT, "PackageName")
-		if len(sinks) == 0 {
-			viol = "RoutesContext.PackageName is never set"
-		}
-		for _, sk := range sinks {
-			sites = append(sites, w.pos(sk.Pos))
-			a := w.exprAtoms(fi, sk.Expr)
-			if a.Fields["definitions.RoutesConfig.PackageName"] {
-				hasCfg = true
-			}
-			for c := range a.Calls {
-				if !strings.HasPrefix(c, "conv:") {
-					viol = fmt.Sprintf("%s: RoutesContext.PackageName passes through %s: it is no longer routesConfig.packageName verbatim", w.pos(sk.Pos), c)
-				}
-			}
-			for f := range a.Fields {
-				if f != "definitions.RoutesConfig.PackageName" && f != "definitions.GleeceConfig.RoutesConfig" {
-					viol = fmt.Sprintf("%s: RoutesContext.PackageName also depends on %s", w.pos(sk.Pos), f)
-				}
-			}
-			for l := range a.Lits {
-				if !strings.HasPrefix(l, "\"") || l == `""` {
-					continue
-				}
-				nDefault++
-				if !token.IsIdentifier(unquote(l)) {
-					viol = "default package name " + l + " is not an identifier"
-				}
-			}
-		}
-		if viol == "" && (!hasCfg || nDefault < 1) {
-			viol = fmt.Sprintf("PackageName must be the configured name or a literal default (configured: %v, literal defaults: %d)", hasCfg, nDefault)
-		}
-		r.add("C09.d", "fieldflow", fi.Key+":PackageName", "PackageName = routesConfig.packageName verbatim, or a literal default that is an identifier", []string{fi.Key}, sites, viol)
-	}
+	checkPackageNameVerbatim(c, r, "C09.d")
 
 	// ---- C09.e generated identifiers: every use has a declaration with the same spelling
 	checkGeneratedIdentifiers(c, r)
@@ -610,4 +569,52 @@ func checkSharedProvider(c *Ctx, r *Report, clause string) {
 		},
 		func(a *sliceAtoms, cnd ssa.Value) bool { return a.hasFieldNamed("keyToImportId") }, false, 1,
 		"a new serial is allocated only when the key has none (same key, same alias)")
+}
+
+// checkPackageNameVerbatim (C09.d / C20.d): the package clause of the routes file is the
+// configured package name as written, or a literal default that is an identifier.
+func checkPackageNameVerbatim(c *Ctx, r *Report, clause string) {
+	w := c.W
+	ctxT := w.lookupType("generator/routes", "RoutesContext")
+	if fi := need(c, r, clause, "generator/routes.GetTemplateContext"); fi != nil {
+		viol := ""
+		var sites []string
+		// whatever the shape (two assignments, or a default that is overridden): what can end up in
+		// PackageName is the configured name verbatim or a literal default that is an identifier
+		hasCfg, nDefault := false, 0
+		sinks := w.fieldSinks(fi, ctxT, "PackageName")
+		if len(sinks) == 0 {
+			viol = "RoutesContext.PackageName is never set"
+		}
+		for _, sk := range sinks {
+			sites = append(sites, w.pos(sk.Pos))
+			a := w.exprAtoms(fi, sk.Expr)
+			if a.Fields["definitions.RoutesConfig.PackageName"] {
+				hasCfg = true
+			}
+			for c := range a.Calls {
+				if !strings.HasPrefix(c, "conv:") {
+					viol = fmt.Sprintf("%s: RoutesContext.PackageName passes through %s: it is no longer routesConfig.packageName verbatim", w.pos(sk.Pos), c)
+				}
+			}
+			for f := range a.Fields {
+				if f != "definitions.RoutesConfig.PackageName" && f != "definitions.GleeceConfig.RoutesConfig" {
+					viol = fmt.Sprintf("%s: RoutesContext.PackageName also depends on %s", w.pos(sk.Pos), f)
+				}
+			}
+			for l := range a.Lits {
+				if !strings.HasPrefix(l, "\"") || l == `""` {
+					continue
+				}
+				nDefault++
+				if !token.IsIdentifier(unquote(l)) {
+					viol = "default package name " + l + " is not an identifier"
+				}
+			}
+		}
+		if viol == "" && (!hasCfg || nDefault < 1) {
+			viol = fmt.Sprintf("PackageName must be the configured name or a literal default (configured: %v, literal defaults: %d)", hasCfg, nDefault)
+		}
+		r.add(clause, "fieldflow", fi.Key+":PackageName", "PackageName = routesConfig.packageName verbatim, or a literal default that is an identifier", []string{fi.Key}, sites, viol)
+	}
 }
